@@ -315,13 +315,14 @@ class Env:
 
 
 class Gen:
-    def __init__(self, rng, max_depth=4, stream='dyadic', avoid_pf11=0.9, measure_p=0.45, drop_p=0.3):
+    def __init__(self, rng, max_depth=4, stream='dyadic', avoid_pf11=0.9, measure_p=0.45, drop_p=0.3, zero_p=0.0):
         self.rng = rng
         self.max_depth = max_depth
         self.stream = stream
         self.avoid_pf11 = avoid_pf11
         self.measure_p = measure_p
         self.drop_p = drop_p
+        self.zero_p = zero_p      # extra probability of a zero repetition count / an empty iteration range
         self.counter = 0
 
     # -- parameters --------------------------------------------------------------------------------
@@ -430,6 +431,9 @@ class Gen:
 
     def count(self, env: Env) -> Tuple[str, Optional[int]]:
         r = self.rng
+        if r.random() < self.zero_p:
+            zeros = [n for n, v in env.ints.items() if v == 0]
+            return (r.choice(zeros), 0) if zeros and r.random() < 0.5 else ('0', 0)
         k = r.random()
         names = list(env.ints)
         if k < 0.3 or not names:
@@ -452,6 +456,9 @@ class Gen:
 
     def loop_range(self, env: Env) -> Tuple[Tuple[str, str, str], List[int]]:
         r = self.rng
+        if r.random() < self.zero_p:
+            a, b, s = r.choice([(0, 0, 1), (3, 1, 1), (0, 2, -1), (2, 2, -1)])
+            return (str(a), str(b), str(s)), []
         names = list(env.ints)
         k = r.random()
         if k < 0.45 or not names:
@@ -686,7 +693,7 @@ class Gen:
                 scalar = fstr(r.choice([F(1, 2), F(2), F(-1), F(3, 2), F(0), F(1, 4)])) if r.random() < 0.6 else r.choice(list(env.volts) or ['2'])
             else:
                 scalar = self.volt(env)[0]
-            if r.random() < 0.4:
+            if r.random() < 0.5:
                 sub = r.sample(chans, r.randrange(1, len(chans) + 1))
                 scalar = [[c, scalar if i == 0 else self.volt(env)[0] if op in '+-' else scalar] for i, c in enumerate(sub)]
             spec = {'k': 'arith', 'body': self.template(d, chans, env, force_idx, True), 'op': op, 'scalar': scalar,
@@ -711,8 +718,13 @@ class Gen:
         # channels: inner names -> outer names (a bijection onto `chans`), extra inner channels are dropped
         pool = [c for c in CHAN_POOL]
         r.shuffle(pool)
-        if r.random() < 0.5:
+        k = r.random()
+        if k < 0.4:
             inner = list(chans)
+        elif k < 0.65 and len(chans) >= 2:
+            inner = list(chans)          # a permutation of the same names: mappings must not be applied twice
+            while inner == list(chans):
+                r.shuffle(inner)
         else:
             inner = pool[:len(chans)]
         cm = [[i, o] for i, o in zip(inner, chans)]
